@@ -68,7 +68,9 @@ def run(c):
         "<= 4) against mutated copies / unrelated values / dict reorderings; every pair of tuples/lists of up to 2 of the zero-like values None, False, 0, "", (), [] and every ordered pair of "
         "dicts of up to 2 entries over 3 (6) hashable keys incl. None and 0 and those 6 values (a key bound to None, a value "
         "becoming None, ...); depth limits 0..5 against heights 1..5; the restart path "
-        "of compose with routeSize 1..30; diffEnv on pairs of environment dicts over functionEnvKeys. Judge on the implementation: "
+        "of compose with routeSize 1..30; diffEnv on pairs of environment dicts over functionEnvKeys, incl. parts nested 6..40 deep "
+        "(unchanged deep part + changed shallow part, changed deep part: far above CompareLimit = 10, far below the budget 1000 of diffEnv), "
+        "==-equal pairs with different encodings (1/1.0, 0.0/-0.0, sharing, dict order). Judge on the implementation: "
         "empty iff starlark.Equal, Old()/New() are the given values, both sequences are reconstructed from the edits (recursively "
         "through replaces), mapping edits = keys added + removed + changed, up to date iff the real encodings are equal; (false, \"environment changed\", no diff) iff the encodings differ and the "
         "environments are ==; otherwise reason = the differing parts. A case is non-trivial "
@@ -103,10 +105,20 @@ def run(c):
             sample={"judge": "reason == the functionEnvKeys whose values differ, in order, joined, + ' changed'"},
             hist={k: v for k, v in stats.items() if k.startswith("env.")})
     report(c, viols)
+    try:  # ground-truth judge of rebuild reasons on whole programs (area Env: checks/env_reason.py, harness/env -mode reason)
+        import env_reason
+        env_reason.run_reason_stream(c)
+    except Exception as e:  # noqa: BLE001
+        c.broken.append("stream env.reason: %r" % (e,))
     return c
 
 
 def replay(c, case):
+    if case.get("stream") == "env.reason":  # a case of the Env area's reason stream
+        import env_reason
+        n = env_reason.replay_reason(c, case)
+        print("VIOLATION property=C16 replay=(given)" if n else "no violation on replay")
+        return 1 if n else 0
     exe = harness(c)
     rc, out = run_replay(exe, case["input"])
     print(out)
